@@ -297,7 +297,8 @@ def run(ctx):
     check(lambda t: t["fam"] == "pt" and t["op"] == "add" and t["cls"] == "P+P" and t["curve"] == "Ed448", flip_y, "ec: one bit of the y-coordinate of a doubling (Ed448)")
     check(lambda t: t["fam"] == "pt" and t["op"] == "mul" and 40 < t["cost"] < 400 and t["R"]["x"] and not t["curve"].startswith("secp"), flip_R,
           "ec: one bit of a scalar multiple (%(curve)s)")
-    check(lambda t: t["fam"] == "pt" and t["op"] == "mul" and 40 < t["cost"] < 400 and t["curve"].startswith("secp"), flip_link,
+    check(lambda t: t["fam"] == "pt" and t["op"] == "mul" and 40 < t["cost"] < 400 and t["curve"].startswith("secp") and t["jobs"]
+          and len(t["jobs"][0]["links"]) > 2 and t["jobs"][0]["links"][len(t["jobs"][0]["links"]) // 2]["r"]["y"], flip_link,
           "ec: one bit of an intermediate multiple of the chain (%(curve)s)")
     check(lambda t: t["fam"] == "x" and t["op"] == "xmul" and 30 < t["cost"] < 900 and t["out"]["x"], flip_xout, "ec: one bit of an x-only scalar multiple (%(curve)s)")
 
